@@ -115,10 +115,109 @@ pub fn judge_prefix(l: &Logical, complete: &[u8], image: &[u8]) -> Option<(Strin
     None
 }
 
+/// A fresh stream that reports its position but cannot be positioned anywhere else (an append-only object, a pipe
+/// behind a byte counter): every seek that would move it fails with `ErrorKind::Unsupported`. Records its writes.
+#[derive(Default)]
+struct AppendOnly {
+    writes: Vec<Vec<u8>>,
+    len: u64,
+}
+impl AppendOnly {
+    fn seek_to(&mut self, to: std::io::SeekFrom) -> std::io::Result<u64> {
+        let target = match to {
+            std::io::SeekFrom::Start(n) => n as i128,
+            std::io::SeekFrom::End(n) | std::io::SeekFrom::Current(n) => self.len as i128 + n as i128,
+        };
+        if target == self.len as i128 {
+            Ok(self.len)
+        } else {
+            Err(std::io::Error::new(std::io::ErrorKind::Unsupported, "this stream cannot be positioned"))
+        }
+    }
+}
+impl std::io::Write for AppendOnly {
+    fn write(&mut self, buf: &[u8]) -> std::io::Result<usize> {
+        self.writes.push(buf.to_vec());
+        self.len += buf.len() as u64;
+        Ok(buf.len())
+    }
+    fn flush(&mut self) -> std::io::Result<()> {
+        Ok(())
+    }
+}
+impl std::io::Seek for AppendOnly {
+    fn seek(&mut self, to: std::io::SeekFrom) -> std::io::Result<u64> {
+        self.seek_to(to)
+    }
+}
+impl futures::AsyncWrite for AppendOnly {
+    fn poll_write(mut self: std::pin::Pin<&mut Self>, _: &mut std::task::Context<'_>, buf: &[u8]) -> std::task::Poll<std::io::Result<usize>> {
+        std::task::Poll::Ready(std::io::Write::write(&mut *self, buf))
+    }
+    fn poll_flush(self: std::pin::Pin<&mut Self>, _: &mut std::task::Context<'_>) -> std::task::Poll<std::io::Result<()>> {
+        std::task::Poll::Ready(Ok(()))
+    }
+    fn poll_close(self: std::pin::Pin<&mut Self>, _: &mut std::task::Context<'_>) -> std::task::Poll<std::io::Result<()>> {
+        std::task::Poll::Ready(Ok(()))
+    }
+}
+impl futures::AsyncSeek for AppendOnly {
+    fn poll_seek(mut self: std::pin::Pin<&mut Self>, _: &mut std::task::Context<'_>, to: std::io::SeekFrom) -> std::task::Poll<std::io::Result<u64>> {
+        std::task::Poll::Ready(self.seek_to(to))
+    }
+}
+
+/// the writer on an append-only stream: whatever it does (the unchanged library gives up at its first seek without
+/// having written anything), no prefix of what reached the stream may open unless it is the complete archive of a
+/// write that reported success
+pub fn append_only_prefixes(l: &Logical, api: Api) -> (u64, Vec<(String, String)>) {
+    let mut out = AppendOnly::default();
+    let r = catch(|| -> std::io::Result<()> {
+        match api {
+            Api::Sync => {
+                let mut pm = PMTiles::<std::io::Cursor<Vec<u8>>>::default();
+                fill(&mut pm, l);
+                pm.to_writer(&mut out)
+            }
+            Api::Async => {
+                let mut pm = PMTiles::<futures::io::Cursor<Vec<u8>>>::default();
+                fill(&mut pm, l);
+                block_on(pm.to_async_writer(&mut out))
+            }
+        }
+    });
+    let mut bad = Vec::new();
+    let succeeded = matches!(r, Ok(Ok(())));
+    if let Err(p) = &r {
+        bad.push((format!("append-only-panic/{}", api.name()), p.clone()));
+    }
+    let complete: Vec<u8> = out.writes.concat();
+    let mut image = Vec::new();
+    let n = out.writes.len();
+    for k in 0..=n {
+        if k > 0 {
+            image.extend_from_slice(&out.writes[k - 1]);
+        }
+        if succeeded && image == complete {
+            continue;
+        }
+        for rd in APIS {
+            if let Ok(v) = open_view(&image, rd, &[]) {
+                bad.push((
+                    format!("torn-image-opens/append-only/{}", api.name()),
+                    format!("on a stream that cannot be positioned (the write as a whole {}), the output after {k} of {n} writes ({} bytes) opens with {} tiles", if succeeded { "reports success" } else { "fails" }, image.len(), v.num_tiles),
+                ));
+                break;
+            }
+        }
+    }
+    (n as u64 + 1, bad)
+}
+
 pub fn run(tier: &str) -> i32 {
     let rep = Report::new("C17", tier, "fault_enumeration");
     let thorough = rep.thorough();
-    rep.rule("archives with 0, 1, 3 and 60 tiles x 4 compressions, archives with one tile of 12 KB, 70 KB, 1.05 MiB, 2 MiB and 3 MiB, and leaf-spilling archives x {sync,async} writer: the recorded log of N seek/write/flush/close operations on a fresh stream; for EVERY k in [0,N] the image after the first k operations (each write atomic) is opened with the sync and the async reader; oracle: Err unless the image is byte-identical to the complete archive (then it must read back as the logical archive); non-trivial = crash points with >=1 write applied; distinct = (archive, writer, k)");
+    rep.rule("archives with 0, 1, 3 and 60 tiles x 4 compressions, archives with one tile of 12 KB, 70 KB, 1.05 MiB, 2 MiB and 3 MiB, and leaf-spilling archives x {sync,async} writer: the recorded log of N seek/write/flush/close operations on a fresh stream; for EVERY k in [0,N] the image after the first k operations (each write atomic) is opened with the sync and the async reader; oracle: Err unless the image is byte-identical to the complete archive (then it must read back as the logical archive); the same for the writes that reach a stream which cannot be positioned (seeks fail with Unsupported); non-trivial = crash points with >=1 write applied; distinct = (archive, writer, k)");
     rep.assume("each write call is atomic and writes land in program order (no reordering below the stream), as the property states");
     let subs = subjects(thorough);
     for (name, l) in subs.iter() {
@@ -162,10 +261,29 @@ pub fn run(tier: &str) -> i32 {
             }
         }
     }
+    // streams that cannot be positioned
+    for (name, l) in subs.iter().filter(|s| s.0.starts_with("empty/") || s.0.starts_with("three-tiles/") || s.0.starts_with("big-tile-12000/")) {
+        for api in APIS {
+            let (n, bad) = append_only_prefixes(l, api);
+            rep.eval(n);
+            rep.count("append_only_stream_prefixes", n);
+            for (k, d) in bad {
+                rep.violation(format!("{k}/{name}"), d, json!({"kind":"append-only","subject":name,"writer":api.name()}));
+            }
+        }
+    }
     rep.finish()
 }
 
 pub fn replay(case: &Value) -> Vec<String> {
+    if case["kind"].as_str() == Some("append-only") {
+        let name = case["subject"].as_str().unwrap_or("");
+        let api = if case["writer"].as_str() == Some("async") { Api::Async } else { Api::Sync };
+        return match subjects(true).into_iter().find(|s| s.0 == name) {
+            Some((_, l)) => append_only_prefixes(&l, api).1.into_iter().map(|(a, b)| format!("{a}: {b}")).collect(),
+            None => vec![format!("unknown subject {name}")],
+        };
+    }
     let name = case["subject"].as_str().unwrap_or("");
     let api = if case["writer"].as_str() == Some("async") { Api::Async } else { Api::Sync };
     let Some((_, l)) = subjects(true).into_iter().find(|s| s.0 == name) else { return vec![format!("unknown subject {name}")] };
